@@ -309,8 +309,17 @@ def run_vh(mode, lines, workdir, extra=(), cwd=None, per_case_timeout=20.0, batc
         shutil.rmtree(workdir, ignore_errors=True)
 
 
+HANGS_IN_THIS_PROCESS = [0]
+
+
 def _run_vh(mode, pending, workdir, extra, cwd, per_case_timeout, batch_timeout, env, results):
     attempt = 0
+    hangs = 0
+    if HANGS_IN_THIS_PROCESS[0] >= 8:
+        # this worker has already confirmed eight hangs (the check has failed eight times over): do not spend more watchdog time
+        for l in pending:
+            results[l.split("\t", 1)[0]] = ["NOTRUN"]
+        return results
     while pending:
         attempt += 1
         cf = os.path.join(workdir, "vh-cases-%d.tsv" % attempt)
@@ -320,7 +329,7 @@ def _run_vh(mode, pending, workdir, extra, cwd, per_case_timeout, batch_timeout,
             f.write("\n")
         if os.path.exists(of):
             os.unlink(of)
-        tmo = batch_timeout if batch_timeout else max(60.0, per_case_timeout + 0.05 * len(pending))
+        tmo = batch_timeout if batch_timeout else max(60.0 if HANGS_IN_THIS_PROCESS[0] == 0 else 20.0, per_case_timeout + 0.05 * len(pending))
         rc, out, err, timed_out = run_cmd([VH, mode, cf, of] + list(extra), cwd=cwd, timeout=tmo, env=env)
         done = set()
         try:
@@ -359,7 +368,8 @@ def _run_vh(mode, pending, workdir, extra, cwd, per_case_timeout, batch_timeout,
         if os.path.exists(of1):
             os.unlink(of1)
         rc1, out1, err1, to1 = run_cmd([VH, mode, cf1, of1] + list(extra), cwd=cwd,
-                                       timeout=max(120.0, per_case_timeout * 10), env=env)
+                                       timeout=max(120.0, per_case_timeout * 10) if HANGS_IN_THIS_PROCESS[0] == 0 else max(30.0, per_case_timeout),
+                                       env=env)
         got = False
         try:
             with open(of1) as f:
@@ -372,7 +382,16 @@ def _run_vh(mode, pending, workdir, extra, cwd, per_case_timeout, batch_timeout,
             pass
         if not got:
             results[sid] = ["HANG"] if to1 else ["CRASH", str(rc1), err1[-300:].decode("utf-8", "replace")]
+            if to1:
+                hangs += 1
+                HANGS_IN_THIS_PROCESS[0] += 1
         pending = rest[1:]
+        if hangs >= 4 and pending:
+            # a tree on which case after case hangs: four confirmed hangs are reported; the remaining cases of this batch are
+            # marked as not run (each further one would cost minutes of watchdog time and say the same)
+            for l in pending:
+                results[l.split("\t", 1)[0]] = ["NOTRUN"]
+            break
     return results
 
 
@@ -389,7 +408,7 @@ class FindResult:
         self.panic = None
         self.out = self.fd1 = self.fd2 = b""
         self.elapsed_us = 0
-        if fields[0] in ("HANG", "CRASH", "SKIP"):
+        if fields[0] in ("HANG", "CRASH", "SKIP", "NOTRUN"):
             self.special = fields[0]
             if fields[0] == "CRASH":
                 self.panic = "crash rc=%s %s" % (fields[1], fields[2] if len(fields) > 2 else "")
